@@ -35,6 +35,7 @@ EXTENDS Naturals, FiniteSets, Sequences, TLC
 
 CONSTANTS EPs,            \* entry points explored in this run
           Strength,       \* interaction strength of the covering design (1..3)
+          Thin,           \* TRUE: the covering design is built around one base per entry point only (strength 3 runs)
           MissingGuards   \* {} = intended; {"api.bd.payload_nil"} = as found (H-C11-1); others = mutants
 
 Outcomes == {"error", "ignored", "accepted"}
@@ -199,6 +200,15 @@ Bases(e) ==
     [] e = "responder"      -> {[NomDns EXCEPT !.inner = i] : i \in {"bd", "uni"}}
     [] OTHER                -> {}
 
+\* the single base of a thin design: the mode with the most code behind it (bidirectional, prefix transport, response present)
+ThinBase(e, b) == IF e = "responder" THEN b.inner = "bd"
+                  ELSE /\ b.transport = "prefix"
+                       /\ (e = "station.ingest" => b.rr = "present")
+                       /\ (e = "regproc" => b.op = "bd")
+                       /\ (e = "api" => b.endpoint = "bd")
+                       /\ (e = "dnsreg" => b.source = "bddns")
+DesignBases(e) == IF Thin THEN {b \in Bases(e) : ThinBase(e, b)} ELSE Bases(e)
+
 \* rows of the covering design: a base with at most Strength fields moved to any of their classes
 RECURSIVE SetToSeq(_)
 SetToSeq(S) == IF S = {} THEN <<>> ELSE LET x == CHOOSE y \in S : TRUE IN <<x>> \o SetToSeq(S \ {x})
@@ -327,7 +337,7 @@ RowChoice(e, r) ==
   ELSE LET D  == Dom(e)
            FS == SetToSeq(DOMAIN D)
            n  == Len(FS)
-       IN \E b \in Bases(e) : \E i1 \in 1..n : \E v1 \in D[FS[i1]] :
+       IN \E b \in DesignBases(e) : \E i1 \in 1..n : \E v1 \in D[FS[i1]] :
             IF Strength = 1 THEN r = [b EXCEPT ![FS[i1]] = v1]
             ELSE \E i2 \in (i1 + 1)..n : \E v2 \in D[FS[i2]] :
                    IF Strength = 2 THEN r = [b EXCEPT ![FS[i1]] = v1, ![FS[i2]] = v2]
